@@ -2,6 +2,7 @@
 CONSTANTS
   Lines <- MCLinesSel
   Star = FALSE
+  Wide = TRUE
   Configs <- MCConfigs
   MaxLen = 4
 INIT Init
